@@ -533,12 +533,38 @@ pub enum Res {
 }
 
 /// Where a handle used as operand comes from (C03: "whichever handle").
-pub const PROV_KINDS: u32 = 7;
+pub const PROV_KINDS: u32 = 8;
+
+/// A handle used as operand: either obtained afresh for this one call, or the
+/// long-lived original handle itself (kind 7), so that any state a handle
+/// object carries from its earlier calls is in play as well.
+pub enum HRef<'a, F: Flav> {
+    Own(F::Node),
+    Ref(&'a F::Node),
+}
+
+impl<'a, F: Flav> HRef<'a, F> {
+    pub fn get(&self) -> &F::Node {
+        match self {
+            HRef::Own(n) => n,
+            HRef::Ref(n) => n,
+        }
+    }
+}
 
 /// Obtain a handle for key `k` by provenance kind; falls back to a clone
 /// when the requested provenance is not available in the current graph.
 /// Returns (handle, kind actually used).
-pub fn handle<F: Flav>(w: &World<F>, k: K, kind: u32) -> (F::Node, u32) {
+pub fn handle<F: Flav>(w: &World<F>, k: K, kind: u32) -> (HRef<'_, F>, u32) {
+    if kind % PROV_KINDS == 7 {
+        // the original handle object itself, as used by every earlier kind-7 call
+        return (HRef::Ref(&w.nodes[k as usize]), 7);
+    }
+    let (h, used) = handle_fresh::<F>(w, k, kind);
+    (HRef::Own(h), used)
+}
+
+fn handle_fresh<F: Flav>(w: &World<F>, k: K, kind: u32) -> (F::Node, u32) {
     let me = &w.nodes[k as usize];
     match kind % PROV_KINDS {
         1 => {
@@ -632,10 +658,10 @@ pub fn exec<F: Flav>(w: &mut World<F>, op: Op, prov: (u32, u32)) -> (Res, Option
                 let (ha, ka) = handle::<F>(wr, a, prov.0);
                 let (hb, kb) = handle::<F>(wr, b, prov.1);
                 let r = if let Op::Connect(..) = op {
-                    F::connect(&ha, &hb, e);
+                    F::connect(ha.get(), hb.get(), e);
                     Res::Unit
                 } else {
-                    match F::try_connect(&ha, &hb, e) {
+                    match F::try_connect(ha.get(), hb.get(), e) {
                         Ok(()) => Res::Ok,
                         Err(k) => Res::Err(k),
                     }
@@ -647,7 +673,7 @@ pub fn exec<F: Flav>(w: &mut World<F>, op: Op, prov: (u32, u32)) -> (Res, Option
             let wr: &World<F> = w;
             catch(|| {
                 let (ha, ka) = handle::<F>(wr, a, prov.0);
-                let r = match F::disconnect(&ha, &k) {
+                let r = match F::disconnect(ha.get(), &k) {
                     Ok(e) => Res::OkE(e),
                     Err(k) => Res::Err(k),
                 };
@@ -658,7 +684,7 @@ pub fn exec<F: Flav>(w: &mut World<F>, op: Op, prov: (u32, u32)) -> (Res, Option
             let wr: &World<F> = w;
             catch(|| {
                 let (ha, ka) = handle::<F>(wr, a, prov.0);
-                F::isolate(&ha);
+                F::isolate(ha.get());
                 (Res::Unit, (ka, 0))
             })
         }
